@@ -92,7 +92,11 @@ public:
 private:
     template <typename Split>
     void do_split( blocked_range2d& r, Split& split_obj ) {
-        if ( my_rows.size()*double(my_cols.grainsize()) < my_cols.size()*double(my_rows.grainsize()) ) {
+        bool split_cols = my_rows.size()*double(my_cols.grainsize()) < my_cols.size()*double(my_rows.grainsize());
+        // The products are compared in floating point and can tie for sizes above 2^53:
+        // never pick an axis that is not divisible while the other one is.
+        if ( split_cols ? !my_cols.is_divisible() : !my_rows.is_divisible() ) split_cols = !split_cols;
+        if ( split_cols ) {
             my_cols.my_begin = col_range_type::do_split(r.my_cols, split_obj);
         } else {
             my_rows.my_begin = row_range_type::do_split(r.my_rows, split_obj);
